@@ -166,6 +166,34 @@ def generate(tier, rng):
             car = rng.choice(['arr.float64', 'list', 'tuple'])
             if C.ok_for(car, vals):
                 yield _line(signed, n, f, r, 'saturate', car, rng.choice(('ctor', 'call', 'setval')), vals)
+    # extended-precision inputs (np.longdouble scalars and arrays): a code plus or minus a sliver that a double cannot hold,
+    # so a conversion through float() before the quantization shows up under floor / ceil / trunc
+    if C.LD_MANT > 53:
+        for _ in range(400 if tier == 'quick' else 8000):
+            signed, n, f = G.rand_format(rng, max_word=30)
+            r, o = rng.choice(ROUNDS), rng.choice(OVFS)
+            lo, hi = lims(signed, n)
+            k = rng.choice([1, 1, 2, 3])
+            vals = []
+            for _ in range(k):
+                c = rng.choice([rng.randint(lo, hi), rng.randint(lo, hi), 0, 1, -1 if signed else 1, lo, hi])
+                j = rng.randint(54, 63) - max(abs(c).bit_length(), 1)
+                v = (Fraction(c) + rng.choice([1, -1]) * Fraction(1, 2 ** j)) / Fraction(2) ** f
+                vals.append(v)
+            car = 'np.longdouble' if k == 1 else 'arr.longdouble'
+            if all(G.in_c01_domain(n, f, v) for v in vals) and C.ok_for(car, vals):
+                yield _line(signed, n, f, r, o, car, rng.choice(C.ROUTES if k == 1 else ('ctor', 'call', 'setval', 'tmpl')), vals)
+    # subnormal doubles into formats with a negative fraction length: the scaling v*2^n_frac must not lose the sign of a non-zero value
+    for _ in range(150 if tier == 'quick' else 3000):
+        signed, n, f = G.rand_format(rng)
+        if f >= 0:
+            f = -rng.randint(1, 8)
+        r, o = rng.choice(ROUNDS), rng.choice(OVFS)
+        k = rng.choice([1, 1, 2, 3])
+        vals = [Fraction(rng.choice([1, 1, 2, 3, rng.randint(1, 2 ** 10)]) * rng.choice([1, -1] if signed else [1]), 2 ** 1074) for _ in range(k)]
+        car = rng.choice(['pyfloat', 'np.float64', 'arr0d']) if k == 1 else rng.choice(['arr.float64', 'list', 'tuple'])
+        if C.ok_for(car, vals):
+            yield _line(signed, n, f, r, o, car, rng.choice(C.ROUTES), vals)
     # complex inputs
     for _ in range(400 if tier == 'quick' else 8000):
         signed, n, f = G.rand_format(rng, max_word=40, fextra=4)
